@@ -31,7 +31,7 @@ ASSUMPTIONS = [
 CMDS = ["phase", "phase_ped", "phase_hp_lists", "genotype", "genotype_ped", "polyphase", "haplotag", "haplotagphase",
         "unphase", "stats", "compare", "split", "find_snv_candidates", "polyphase_pre", "polyphase_pre2", "polyphase_pre3",
         # option variants (the result must depend on files and options only, whatever the options are)
-        "split_largest", "compare_multi", "stats_gtf", "phase_distrust", "haplotag_regions", "find_snv_multi"]
+        "split_largest", "compare_multi", "stats_gtf", "phase_distrust", "haplotag_regions", "find_snv_multi", "phase_lists_chr2"]
 
 
 def design_mc(ctx):
@@ -266,6 +266,11 @@ def drive(sc):
                 "phase_distrust": (["phase", "--reference", paths["ref"], "-o", "{out}/out.vcf", "--distrust-genotypes", "--include-homozygous",
                                     "--changed-genotype-list", "{out}/gt.tsv", "--output-read-list", "{out}/reads.tsv",
                                     paths["vcf"], paths["bam"]], ["out.vcf", "gt.tsv", "reads.tsv"]),
+                "phase_lists_chr2": (["phase", "--reference", paths["ref"], "-o", "{out}/out.vcf", "--distrust-genotypes",
+                                      "--changed-genotype-list", "{out}/gt.tsv", "--output-read-list", "{out}/reads.tsv",
+                                      "--ped", paths["ped"], "--recombination-list", "{out}/rec.tsv",
+                                      "--chromosome", paths["names"][-1], paths["vcf"], paths["bam"]],
+                                     ["out.vcf", "gt.tsv", "reads.tsv", "rec.tsv"]),
                 "haplotag_regions": (["haplotag", "--reference", paths["ref"], "-o", "{out}/out.bam", "--output-haplotag-list", "{out}/list.tsv",
                                       "--regions", paths["names"][0] + ":1-160", "--regions", paths["names"][-1] + ":100-400",
                                       "--tag-supplementary", "--ignore-linked-read", "--sample", names[0], "--sample", names[2],
@@ -277,9 +282,12 @@ def drive(sc):
             }[cmd]
         evs = []
         digests = {}
-        for k, env in enumerate(sc["envs"]):
-            od = os.path.join(d, f"run{k}")
-            os.makedirs(od)
+        # REPEATED EXECUTION IN PLACE: the last environment runs the command a second time into the output directory of the
+        # first one (the files of the earlier execution are still there) - the result must not depend on what was on disk
+        envs = list(sc["envs"]) + [dict(sc["envs"][0], rep=2, inplace=True)]
+        for k, env in enumerate(envs):
+            od = os.path.join(d, "run0" if env.get("inplace") else f"run{k}")
+            os.makedirs(od, exist_ok=True)
             args = [a.replace("{out}", od).replace("{threads}", str(env["threads"])) for a in base]
             if cmd.startswith("polyphase"):
                 args = args[:1] + ["--threads", str(env["threads"])] + args[1:]
@@ -302,7 +310,8 @@ def drive(sc):
             evs.append({"ev": "Run", "cmd": CMDS.index(cmd) + 1, "input": sc["input"], "exc": exc,
                         "hashseed": env["hashseed"] if env["hashseed"] != "random" else -1, "threads": env["threads"],
                         "rep": env["rep"], "digest": did, "outs": len([x for x in parts if x != "missing"])})
-            shutil.rmtree(od, ignore_errors=True)
+            if k > 0 and not env.get("inplace"):
+                shutil.rmtree(od, ignore_errors=True)
         return evs
     finally:
         shutil.rmtree(d, ignore_errors=True)
